@@ -1,4 +1,5 @@
 SPECIFICATION MSpec
+CONSTANT UseCb = FALSE
 CONSTANT Points <- MlPointsQuick
 INVARIANTS MlComplete MlStatus MlSound MlNoNullDest MlIndexInRange RankLemma ItBeforeFinish
 CHECK_DEADLOCK FALSE
